@@ -3,25 +3,66 @@
 #ifndef TETL_CMATH_FMOD_HPP
 #define TETL_CMATH_FMOD_HPP
 
-#include <etl/_3rd_party/gcem/gcem.hpp>
+#include <etl/_limits/numeric_limits.hpp>
 
 namespace etl {
+
+namespace detail {
+
+/// Exact floating-point remainder of x/y with the sign of x (ISO C 7.12.10.1).
+/// Every operation below is exact: t is always ay * 2^k and t <= r < 2t when r -= t is executed.
+template <typename T>
+[[nodiscard]] constexpr auto fmod_impl(T x, T y) noexcept -> T
+{
+    constexpr auto inf = etl::numeric_limits<T>::infinity();
+    if (x != x or y != y or x == inf or x == -inf or y == T(0)) {
+        return etl::numeric_limits<T>::quiet_NaN();
+    }
+
+    auto const ax = x < T(0) ? -x : x;
+    auto const ay = y < T(0) ? -y : y;
+    if (ay == inf or ax < ay) {
+        return x;
+    }
+
+    // largest t = ay * 2^k that is not greater than ax
+    auto t = ay;
+    while (ax - t >= t) {
+        t += t;
+    }
+
+    // binary long division: r < 2t holds before every step
+    auto r = ax;
+    while (true) {
+        if (r >= t) {
+            r -= t;
+        }
+        if (t == ay) {
+            break;
+        }
+        t /= T(2);
+    }
+
+    return x < T(0) ? -r : r;
+}
+
+} // namespace detail
 
 /// \ingroup cmath
 /// @{
 
 /// Computes the floating-point remainder of the division operation x/y.
 /// \details https://en.cppreference.com/w/cpp/numeric/math/fmod
-[[nodiscard]] constexpr auto fmod(float x, float y) noexcept -> float { return etl::detail::gcem::fmod(x, y); }
-[[nodiscard]] constexpr auto fmodf(float x, float y) noexcept -> float { return etl::detail::gcem::fmod(x, y); }
-[[nodiscard]] constexpr auto fmod(double x, double y) noexcept -> double { return etl::detail::gcem::fmod(x, y); }
+[[nodiscard]] constexpr auto fmod(float x, float y) noexcept -> float { return etl::detail::fmod_impl(x, y); }
+[[nodiscard]] constexpr auto fmodf(float x, float y) noexcept -> float { return etl::detail::fmod_impl(x, y); }
+[[nodiscard]] constexpr auto fmod(double x, double y) noexcept -> double { return etl::detail::fmod_impl(x, y); }
 [[nodiscard]] constexpr auto fmod(long double x, long double y) noexcept -> long double
 {
-    return etl::detail::gcem::fmod(x, y);
+    return etl::detail::fmod_impl(x, y);
 }
 [[nodiscard]] constexpr auto fmodl(long double x, long double y) noexcept -> long double
 {
-    return etl::detail::gcem::fmod(x, y);
+    return etl::detail::fmod_impl(x, y);
 }
 
 /// @}
